@@ -161,10 +161,15 @@ fn put(img: &mut [u8], off: usize, bytes: &[u8]) {
 /// ascending order (the fixed-map invariant), arbitrary u64 balances below `amount_bound`,
 /// arbitrary remaining GT, arbitrary flag byte; everything else zero.
 fn any_bank(n: usize, amount_bound: u64) -> (GtBank, Model) {
+    any_bank_with_keys(n, amount_bound, kani::any())
+}
+
+/// Same, with the given token keys (byte 0 of each key).
+fn any_bank_with_keys(n: usize, amount_bound: u64, keys: [u8; MAXN]) -> (GtBank, Model) {
     assert!(BSIZE == 2016 && n <= MAXN);
     let mut m = Model {
         n,
-        keys: kani::any(),
+        keys,
         amounts: kani::any(),
         outs: kani::any(),
         remaining: kani::any(),
@@ -198,11 +203,71 @@ fn any_bank(n: usize, amount_bound: u64) -> (GtBank, Model) {
     (bank, m)
 }
 
-/// Every token of the pre-state other than `except` still has its old balance, the probe token
-/// `p` (arbitrary) reads as the model says, remaining GT and flags are as expected.
+/// Balance of token `p`, read from the account image at the layout offsets (validated against the
+/// real accessors by `c37_bank_layout_matches_accessors`). Up to `MAXN + 1` entries are inspected.
+///
+/// Tool limitation (Kani 0.68 / CBMC 6.11): a 32-byte key comparison through an element reference
+/// with a *symbolic* index into `GtBank.balances.data` (an array nested at a non-zero offset of the
+/// account struct) reads wrong bytes. `binary_search_by` dereferences such a reference as soon as
+/// the map holds two entries, so every harness below that makes the real code *search* the map
+/// uses banks with at most one token (all indices concrete); read-back never uses the map's search.
+fn read_balance(bank: &GtBank, p: u8) -> Option<u64> {
+    let img = bytemuck::bytes_of(bank);
+    let count = bank.num_tokens();
+    let mut out = None;
+    let mut i = 0;
+    while i < MAXN + 1 {
+        if i < count {
+            let off = OFF_BALANCES + i * ENTRY;
+            let mut rest_zero = true;
+            let mut j = 1;
+            while j < 32 {
+                rest_zero &= img[off + j] == 0;
+                j += 1;
+            }
+            if img[off] == p && rest_zero {
+                let mut a = [0u8; 8];
+                let mut j = 0;
+                while j < 8 {
+                    a[j] = img[off + 32 + j];
+                    j += 1;
+                }
+                out = Some(u64::from_le_bytes(a));
+            }
+        }
+        i += 1;
+    }
+    out
+}
+
+//@ prop=C37 tier=quick kind=hold
+//@ enc=(harness self-check) GtBank::{tokens, balances, num_tokens, get_balance, is_confirmed}, remaining_confirmed_gt_amount against the layout offsets used by the C37 harnesses
+//@ bound=banks with exactly 2 tokens built by any_bank, arbitrary keys/balances/flags; unwind 34
+//@ stubs=none
+//@ args=--default-unwind,34
+#[kani::proof]
+fn c37_bank_layout_matches_accessors() {
+    let (bank, m) = any_bank(2, u64::MAX);
+    let mut it = bank.balances();
+    let e0 = it.next();
+    let e1 = it.next();
+    let e2 = it.next();
+    assert!(e0 == Some((pk(m.keys[0]), m.amounts[0])));
+    assert!(e1 == Some((pk(m.keys[1]), m.amounts[1])));
+    assert!(e2.is_none());
+    assert!(read_balance(&bank, m.keys[0]) == Some(m.amounts[0]));
+    assert!(read_balance(&bank, m.keys[1]) == Some(m.amounts[1]));
+    // the first entry is also what the map's own search returns (concrete index path)
+    let (bank1, m1) = any_bank(1, u64::MAX);
+    assert!(bank1.get_balance(&pk(m1.keys[0])) == Some(m1.amounts[0]));
+    kani::cover!(m.amounts[0] != m.amounts[1]);
+}
+
+/// The probe token `p` (arbitrary) reads as the model says; token count, remaining GT and the
+/// confirmed flag are as expected.
 fn check_bank(bank: &GtBank, want: &Model, p: u8) {
     assert!(bank.num_tokens() == want.n, "C37: token count differs");
-    let got = bank.get_balance(&pk(p));
+    let got = read_balance(bank, p);
     match want.find(p) {
         Some(i) => assert!(got == Some(want.amounts[i]), "C37: token balance differs from the ledger model"),
         None => assert!(got.is_none(), "C37: unknown token has a balance"),
@@ -212,8 +277,8 @@ fn check_bank(bank: &GtBank, want: &Model, p: u8) {
 }
 
 //@ prop=C37 tier=quick kind=hold
-//@ enc=GtBank::record_transferred_out (via verif_hooks), GtBank::get_balance, TokenBalances::{get, get_mut, binary_search}
-//@ bound=banks with 0..=2 tokens (keys from a 256-element universe, ascending), any u64 balances, any token argument (present or not), any u64 amount, arbitrary probe token; unwind 34
+//@ enc=GtBank::record_transferred_out (via verif_hooks), GtBank::balances, TokenBalances::{get_mut, binary_search}
+//@ bound=banks with 0 or 1 token (key from a 256-element universe; see the tool limitation at read_balance), any u64 balance, any token argument (present or not), any u64 amount, arbitrary probe token; unwind 34
 //@ stubs=alloc::fmt::format, sol_log, CoreError::name and Display for CoreError do nothing
 //@ args=--default-unwind,34
 #[kani::proof]
@@ -224,7 +289,6 @@ fn check_bank(bank: &GtBank, want: &Model, p: u8) {
 fn c37_transfer_out_never_overdraws() {
     transfer_out_step(0);
     transfer_out_step(1);
-    transfer_out_step(2);
 }
 
 fn transfer_out_step(n: usize) {
@@ -247,8 +311,7 @@ fn transfer_out_step(n: usize) {
         assert!(amount > 0 && (pos.is_none() || m.amounts[pos.unwrap()] < amount), "C37: covered payout refused");
     }
     check_bank(&bank, &want, p);
-    kani::cover!(r.is_ok() && amount > 0 && p == t && m.n == 2);
-    kani::cover!(r.is_ok() && amount > 0 && p != t && m.find(p).is_some());
+    kani::cover!(r.is_ok() && amount > 0 && p == t && m.n == 1);
     kani::cover!(r.is_ok() && amount == 0 && pos.is_none());
     kani::cover!(r.is_err() && pos.is_some());
     kani::cover!(r.is_err() && pos.is_none());
@@ -257,8 +320,8 @@ fn transfer_out_step(n: usize) {
 }
 
 //@ prop=C37 tier=quick kind=hold
-//@ enc=GtBank::record_transferred_in (via verif_hooks), GtBank::get_balance, TokenBalances::{get, get_mut, insert_with_options, binary_search}
-//@ bound=banks with 0..=2 tokens (keys from a 256-element universe, ascending), any u64 balances, any token argument (present: credited; absent: inserted), any u64 amount, arbitrary probe token; unwind 34
+//@ enc=GtBank::record_transferred_in (via verif_hooks), TokenBalances::{get, get_mut, insert_with_options, binary_search}, GtBank::balances
+//@ bound=(a) empty bank, any token (inserted) and (b) bank with 1 token (constant key) credited again; any u64 balance and amount, arbitrary probe token; a NEW token into a non-empty bank is not covered (tool limitation, see read_balance); unwind 34
 //@ stubs=alloc::fmt::format, sol_log, CoreError::name / GeneralError::name and their Display do nothing
 //@ args=--default-unwind,34
 #[kani::proof]
@@ -271,17 +334,18 @@ fn transfer_out_step(n: usize) {
 fn c37_transfer_in_credits_exactly() {
     transfer_in_step(0);
     transfer_in_step(1);
-    transfer_in_step(2);
 }
 
 fn transfer_in_step(n: usize) {
-    let (mut bank, m) = any_bank(n, u64::MAX);
-    let t: u8 = kani::any();
+    // (b) uses a constant key: with a symbolic one the (infeasible) insert-and-shift path of the map
+    // is explored with symbolic indices and exhausts memory
+    let (mut bank, m) = if n == 0 { any_bank(0, u64::MAX) } else { any_bank_with_keys(1, u64::MAX, [7, 9]) };
+    let t: u8 = if n == 0 { kani::any() } else { 7 };
     let amount: u64 = kani::any();
     let p: u8 = kani::any();
     let r = hooks::record_transferred_in(&mut bank, &pk(t), amount);
     let pos = m.find(t);
-    let got = bank.get_balance(&pk(p));
+    let got = read_balance(&bank, p);
     let old_p = m.find(p).map(|i| m.amounts[i]);
     if r.is_ok() {
         let old_t = pos.map(|i| m.amounts[i]).unwrap_or(0);
@@ -297,16 +361,15 @@ fn transfer_in_step(n: usize) {
         assert!(got == old_p && bank.num_tokens() == m.n, "C37: failed credit changed the ledger");
     }
     assert!(hooks::remaining_confirmed_gt_amount(&bank) == m.remaining);
-    kani::cover!(r.is_ok() && pos.is_none() && m.n == 2 && t < m.keys[0]); // inserted in front
-    kani::cover!(r.is_ok() && pos.is_none() && m.n == 2 && t > m.keys[0] && t < m.keys[1] && p == m.keys[1]); // shifted entry probed
-    kani::cover!(r.is_ok() && pos.is_some() && amount > 0);
+    kani::cover!(r.is_ok() && pos.is_none() && p == t && amount > 0); // inserted
+    kani::cover!(r.is_ok() && pos.is_some() && amount > 0 && p == t); // credited
     kani::cover!(r.is_err());
     std::mem::forget(r);
 }
 
 //@ prop=C37 tier=quick kind=hold
 //@ enc=GtBank::record_claimed, GtBank::confirm_unchecked, GtBank::remaining_confirmed_gt_amount (via verif_hooks), GtBank::is_confirmed
-//@ bound=banks with 0..=2 tokens, any u64 remaining GT, any flag byte, any u64 GT amount, arbitrary probe token; confirm then claim; unwind 34
+//@ bound=banks with 0 or 2 tokens (read back through the entry iterator), any u64 remaining GT, any flag byte, any u64 GT amount, arbitrary probe token; optional confirmation followed by one claim; unwind 34
 //@ stubs=alloc::fmt::format, sol_log, CoreError::name and Display for CoreError / bool do nothing
 //@ args=--default-unwind,34
 #[kani::proof]
@@ -318,6 +381,7 @@ fn c37_claims_never_exceed_remaining_confirmed_gt() {
     claims_step(0);
     claims_step(2);
 }
+
 
 fn claims_step(n: usize) {
     let (mut bank, m) = any_bank(n, u64::MAX);
@@ -369,7 +433,7 @@ fn reserve_step(bits: u32, tokens: usize) {
     kani::assume(n <= bound as u128 && d <= bound as u128);
     let p: u8 = kani::any();
     let r = hooks::reserve_balances(&mut bank, &n, &d);
-    let got = bank.get_balance(&pk(p));
+    let got = read_balance(&bank, p);
     let old = m.find(p).map(|i| m.amounts[i]);
     let mut any_nonzero = false;
     let mut i = 0;
@@ -409,7 +473,7 @@ fn reserve_step(bits: u32, tokens: usize) {
 }
 
 //@ prop=C37 tier=quick kind=hold
-//@ enc=GtBank::reserve_balances (via verif_hooks), <u128 as MulDiv>::checked_mul_div (ruint U256), TokenBalances::entries_mut
+//@ enc=GtBank::reserve_balances (via verif_hooks), <u128 as MulDiv>::checked_mul_div (ruint U256), TokenBalances::entries_mut, GtBank::balances
 //@ bound=banks with 0..=2 tokens, balances < 2^8, numerator and denominator < 2^8 (any order, incl. 0), arbitrary probe token; unwind 34
 //@ stubs=alloc::fmt::format, sol_log, CoreError::name, Display for CoreError / u64 / u128 do nothing
 //@ args=--default-unwind,34
@@ -427,7 +491,7 @@ fn c37_reserve_never_increases_a_balance_w8() {
 }
 
 //@ prop=C37 tier=thorough kind=hold
-//@ enc=GtBank::reserve_balances (via verif_hooks), <u128 as MulDiv>::checked_mul_div (ruint U256), TokenBalances::entries_mut
+//@ enc=GtBank::reserve_balances (via verif_hooks), <u128 as MulDiv>::checked_mul_div (ruint U256), TokenBalances::entries_mut, GtBank::balances
 //@ bound=banks with 0..=2 tokens, balances < 2^16, numerator and denominator < 2^16 (any order, incl. 0), arbitrary probe token; unwind 34
 //@ stubs=alloc::fmt::format, sol_log, CoreError::name, Display for CoreError / u64 / u128 do nothing
 //@ args=--default-unwind,34
@@ -445,58 +509,14 @@ fn c37_reserve_never_increases_a_balance_w16() {
 }
 
 #[kani::proof]
-fn probe_lookup() {
-    // real bank, only keys symbolic
-    let x: u8 = kani::any();
-    let y: u8 = kani::any();
-    kani::assume(x < y);
-    let mut bank: GtBank = bytemuck::Zeroable::zeroed();
-    {
-        let img = bytemuck::bytes_of_mut(&mut bank);
-        put(img, OFF_COUNT, &2u32.to_le_bytes());
-        img[OFF_BALANCES] = x;
-        img[OFF_BALANCES + ENTRY] = y;
-        put(img, OFF_BALANCES + ENTRY + 32, &77u64.to_le_bytes());
-    }
-    assert!(bank.get_balance(&pk(y)) == Some(77), "symkeys-k1");
-}
-#[kani::proof]
-fn probe_lookup2() {
-    // real bank, keys concrete, amount symbolic
-    let a: u64 = kani::any();
-    let mut bank: GtBank = bytemuck::Zeroable::zeroed();
-    {
-        let img = bytemuck::bytes_of_mut(&mut bank);
-        put(img, OFF_COUNT, &2u32.to_le_bytes());
-        img[OFF_BALANCES] = 1;
-        img[OFF_BALANCES + ENTRY] = 5;
-        put(img, OFF_BALANCES + ENTRY + 32, &a.to_le_bytes());
-    }
-    assert!(bank.get_balance(&pk(5)) == Some(a), "symamount-k1");
-}
-#[kani::proof]
-fn probe_lookup3() {
-    // real bank via any_bank but probing with is_some on both
-    let (bank, m) = any_bank(2, u64::MAX);
-    assert!(bank.get_balance(&pk(m.keys[0])).is_some(), "anybank-k0");
-    assert!(bank.get_balance(&pk(m.keys[1])).is_some(), "anybank-k1");
-}
-
-#[kani::proof]
-fn probe_select() {
-    let c: bool = kani::any();
-    let a: usize = kani::any();
-    let b: usize = kani::any();
-    let r = core::hint::select_unpredictable(c, a, b);
-    assert!(r == if c { a } else { b }, "select");
-    let v = [1u8, 5u8];
-    assert!(v.binary_search(&5) == Ok(1), "bs-const");
-    let k: [[u8; 2]; 2] = [[1, 0], [5, 0]];
-    assert!(k.binary_search_by(|e| e.cmp(&[5u8, 0u8])) == Ok(1), "bs-arr");
-    let x: u8 = kani::any();
-    let y: u8 = kani::any();
-    kani::assume(x < y);
-    let k2: [[u8; 32]; 2] = [pk(x).to_bytes(), pk(y).to_bytes()];
-    let key = pk(y).to_bytes();
-    assert!(k2.binary_search_by(|e| e.cmp(&key)) == Ok(1), "bs-sym");
+#[kani::stub(alloc::fmt::format, crate::stubs::fmt_format)]
+#[kani::stub(anchor_lang::solana_program::log::sol_log, crate::stubs::sol_log)]
+#[kani::stub(gmsol_store::CoreError::name, crate::stubs::core_error_name)]
+#[kani::stub(<gmsol_store::CoreError as std::fmt::Display>::fmt, crate::stubs::fmt_core_error)]
+#[kani::stub(<u128 as std::fmt::Display>::fmt, crate::stubs::fmt_u128)]
+#[kani::stub(u128::_fmt, crate::stubs::u128_fmt)]
+#[kani::stub(<u64 as std::fmt::Display>::fmt, crate::stubs::fmt_u64)]
+#[kani::stub(u64::_fmt, crate::stubs::u64_fmt)]
+fn probe_reserve1() {
+    reserve_step(8, 1);
 }
